@@ -349,7 +349,7 @@ func verifyMerkleProof(
 
 	//3.verify storage proof
 	nodeList = new(light.NodeList)
-	if len(bscProof.StorageProof) != 1 {
+	if len(bscProof.StorageProof) != 1 || bscProof.StorageProof[0] == nil {
 		return fmt.Errorf("verifyMerkleProof, invalid storage proof format")
 	}
 
